@@ -4,6 +4,7 @@ CONSTANTS
   DropFinal = FALSE
   LossyUtf8 = FALSE
   EncodeLFs = 1
+  EofSkipsDecode = FALSE
 SPECIFICATION TSpec
 POSTCONDITION TraceAccepted
 CHECK_DEADLOCK FALSE
